@@ -44,6 +44,7 @@ type multiReader struct {
 	mu      sync.Mutex
 	rx      []*rtp.Packet
 	rtcpRx  int
+	sdesRx  []string
 	decErrs []string
 	// plain reader (raw TLS connection)
 	rc     *rawConn
@@ -194,9 +195,12 @@ func runMultiCase(c *corr.Ctx, in *MultiInput, name string) {
 			r.rx = append(r.rx, pkt)
 			r.mu.Unlock()
 		})
-		r.cl.OnPacketRTCPAny(func(_ *description.Media, _ rtcp.Packet) {
+		r.cl.OnPacketRTCPAny(func(_ *description.Media, pk rtcp.Packet) {
 			r.mu.Lock()
 			r.rtcpRx++
+			if sd, ok := pk.(*rtcp.SourceDescription); ok && len(sd.Chunks) == 1 && len(sd.Chunks[0].Items) == 1 {
+				r.sdesRx = append(r.sdesRx, sd.Chunks[0].Items[0].Text)
+			}
 			r.mu.Unlock()
 		})
 		if _, err = r.cl.Play(nil); err != nil {
@@ -229,6 +233,7 @@ func runMultiCase(c *corr.Ctx, in *MultiInput, name string) {
 	}
 	time.Sleep(20 * time.Millisecond)
 	total := 0
+	sdesSent := map[string]bool{}
 	for i := 0; i < in.N; i++ {
 		for f := 0; f < in.Formats; f++ {
 			pt := uint8(96 + f)
@@ -243,6 +248,16 @@ func runMultiCase(c *corr.Ctx, in *MultiInput, name string) {
 			if total%16 == 0 {
 				waitFor(2*time.Second, func() bool { return seenMin() >= total-40 })
 			}
+			if total%10 == 0 {
+				// RTCP written through the stream (ServerStream.WritePacketRTCP fans out like RTP)
+				txt := fmt.Sprintf("%s/rtcp/#%d", marker, len(sdesSent))
+				if err = st.WritePacketRTCP(desc.Medias[0], &rtcp.SourceDescription{Chunks: []rtcp.SourceDescriptionChunk{{
+					Source: 0x01020304, Items: []rtcp.SourceDescriptionItem{{Type: rtcp.SDESCNAME, Text: txt}}}}}); err != nil {
+					multiViol(c, "the stream carries RTCP to a mixed reader population", "sec-multi-write-rtcp", in, err.Error())
+					return
+				}
+				sdesSent[txt] = true
+			}
 		}
 	}
 	waitFor(2*time.Second, func() bool { return seenMin() >= total })
@@ -256,12 +271,18 @@ func runMultiCase(c *corr.Ctx, in *MultiInput, name string) {
 			r.mu.Lock()
 			frames := append([]base.InterleavedFrame{}, r.frames...)
 			r.mu.Unlock()
-			nRTP, nRTCP, bad, badC := 0, 0, 0, 0
+			nRTP, nRTCP, bad, badC, nSDES := 0, 0, 0, 0, 0
 			for _, fr := range frames {
 				if fr.Channel == 1 {
 					nRTCP++
 					if pk, err2 := rtcp.Unmarshal(fr.Payload); err2 != nil || len(pk) != 1 {
 						badC++
+					} else if sd, ok := pk[0].(*rtcp.SourceDescription); ok {
+						if len(sd.Chunks) != 1 || len(sd.Chunks[0].Items) != 1 || !sdesSent[sd.Chunks[0].Items[0].Text] {
+							badC++
+						} else {
+							nSDES++
+						}
 					} else if _, ok := pk[0].(*rtcp.SenderReport); !ok || len(fr.Payload) != 28 {
 						badC++
 					}
@@ -292,8 +313,8 @@ func runMultiCase(c *corr.Ctx, in *MultiInput, name string) {
 				classesC[i] = "c"
 				multiViol(c, "a reader without SRTP receives plain RTCP", "sec-multi-plain-reader-rtcp", in, fmt.Sprintf("reader %d: %d of %d RTCP frames are not plain sender reports", i, badC, nRTCP))
 			}
-			if nRTP != total {
-				multiViol(c, "every reader receives every packet", "sec-multi-plain-reader-missing", in, fmt.Sprintf("reader %d: %d of %d", i, nRTP, total))
+			if nRTP != total || nSDES != len(sdesSent) {
+				multiViol(c, "every reader receives every packet", "sec-multi-plain-reader-missing", in, fmt.Sprintf("reader %d: %d of %d RTP, %d of %d RTCP", i, nRTP, total, nSDES, len(sdesSent)))
 			}
 			c.DistN("multi-plain-frames", nRTP)
 			c.DistN("multi-plain-rtcp", nRTCP)
@@ -305,14 +326,23 @@ func runMultiCase(c *corr.Ctx, in *MultiInput, name string) {
 		r.mu.Lock()
 		rx := append([]*rtp.Packet{}, r.rx...)
 		decErrs := append([]string{}, r.decErrs...)
+		sdesRx := append([]string{}, r.sdesRx...)
 		r.mu.Unlock()
+		for _, t := range sdesRx {
+			if !sdesSent[t] {
+				multiViol(c, "only RTCP written by the stream is delivered", "sec-multi-rtcp-forged", in, fmt.Sprintf("reader %d", i))
+			}
+		}
+		if r.kind == "savp-tcp" && len(sdesRx) != len(sdesSent) {
+			multiViol(c, "every secure reader decrypts every RTCP packet of the stream", "sec-multi-rtcp-missing", in, fmt.Sprintf("reader %d: %d of %d", i, len(sdesRx), len(sdesSent)))
+		}
 		un := unwrap{}
 		clear, clearC, nR, nC := 0, 0, 0, 0
 		arrived := map[pktKey]bool{}
 		for _, u := range units {
 			if isRTCP(u.data) {
 				nC++
-				if len(u.data) < 22 || u.data[len(u.data)-14]&0x80 == 0 || (u.data[1] == 200 && len(u.data) != 28+14) {
+				if len(u.data) < 22 || u.data[len(u.data)-14]&0x80 == 0 || (u.data[1] == 200 && len(u.data) != 28+14) || bytes.Contains(u.data, []byte(marker)) {
 					clearC++
 				}
 				continue
